@@ -11,16 +11,25 @@
 (* rvalue copies or moves) every conforming answer is accepted.            *)
 (*                                                                         *)
 (* State.  a[k] for k \in Anys is RAW (storage holds no any object),       *)
-(* EMPTY, or the id (>= 1) of the payload object the any contains.  lt is  *)
-(* the lifetime record of payload objects (AnyLifetime): type and value of *)
-(* every LIVE id, and the largest id ever used.                            *)
+(* EMPTY, UNT (the any contains an object of a type without element events,*)
+(* described by u[k]) or the id (>= 1) of the instrumented payload object  *)
+(* the any contains.  lt is the lifetime record of instrumented payload    *)
+(* objects (AnyLifetime): type and value of every LIVE id, and the largest *)
+(* id ever used.  u[k] = [t, v, loc]: type, value and location (an opaque  *)
+(* number for the address) of an uninstrumented payload object ("untracked"*)
+(* types: int, std::string, const char*, function pointer, shared_ptr<int>,*)
+(* an over-aligned struct, a struct containing another any).  For them the *)
+(* lifetime part of the property is visible only through values, locations *)
+(* and - for the types that own a shared_ptr control block - through the   *)
+(* owner count spc the client can read with use_count().                   *)
 (*                                                                         *)
 (* A step is one public call.  The call is described by                    *)
 (*   op, k, g   - operation, the object it is applied to, argument record  *)
 (*   evs        - the element events (payload constructors, destructors,   *)
 (*                injected throws ...) that happened during the call       *)
 (*   res        - what the call returned / threw                           *)
-(*   a2         - what the any objects contain afterwards                  *)
+(*   a2, u2, spc- what the any objects contain afterwards, and the owner   *)
+(*                counts of the control blocks                             *)
 (* and CallOK says whether such a call is allowed in the current state:    *)
 (*   1. the events respect object lifetimes (Fold): nothing is constructed *)
 (*      from, assigned from or destroyed as an object that is not alive;   *)
@@ -38,29 +47,42 @@ EXTENDS AnyLifetime, TLC
 CONSTANTS Anys,     \* the any objects: 1..NA
           Types     \* payload types that can be stored
 
-VARIABLES a,        \* a[k] \in {RAW, EMPTY} \cup ids
-          lt,       \* lifetime record of payload objects
+VARIABLES a,        \* a[k] \in {RAW, EMPTY, UNT} \cup ids
+          u,        \* u[k]: the untracked object contained in any k (NoU if none)
+          lt,       \* lifetime record of instrumented payload objects
+          env,      \* build configuration the property is parametrised by: [noexc |-> XTL_NO_EXCEPTIONS]
           last,     \* ghost: the call just performed [op, k, a, ev, res]
-          pre       \* ghost: [a, lt] before that call
+          pre       \* ghost: [a, u, lt] before that call
 
-vars    == <<a, lt, last, pre>>
-absvars == <<a, lt>>
+vars    == <<a, u, lt, env, last, pre>>
+absvars == <<a, u, lt>>
 
 RAW   == -2
 EMPTY == -1
+UNT   == 0
 Has(x) == x >= 1
 NA == Cardinality(Anys)
 
-NoRes   == [exc |-> "none", null |-> FALSE, id |-> 0, v |-> 0, ty |-> ""]
+UntrackedTypes == {"Int", "Str", "CStr", "Fn", "Sp", "Ov", "Nest"}   \* no element events
+CountedTypes   == {"Sp", "Nest"}                                     \* own one shared_ptr control block (named by the value)
+DecayTypes     == {"CStr", "Fn"}                                     \* can also be stored from an array / a function (decay)
+NeverStored    == {"CharP", "AnyT", "Arr"}                           \* cast targets that are never the decayed type of a stored value
+NothrowCopy    == {"NC"} \cup UntrackedTypes                         \* copy constructor cannot be made to throw
+NoU == [t |-> "", v |-> 0, loc |-> 0]
+
+NoRes   == [exc |-> "none", null |-> FALSE, id |-> 0, v |-> 0, loc |-> 0, ty |-> ""]
 FuseRes == [NoRes EXCEPT !.exc = "fuse"]
 BadCast == [NoRes EXCEPT !.exc = "bad_any_cast"]
+TermRes == [NoRes EXCEPT !.exc = "terminate"]
 NullRes == [NoRes EXCEPT !.null = TRUE]
+(* a failing reference/value cast: throws bad_any_cast; std::terminate when exceptions are compiled out *)
+CastFails == IF env.noexc THEN TermRes ELSE BadCast
 
 ----------------------------------------------------------------------------
 (* Operations (every public member and non-member of xany.hpp):
      DefaultConstruct   any()
      Construct          any(ValueType&&)           g.t, g.v: type and value; g.form: how the value is passed
-     CopyConstruct      any(const any&)            g.j: source
+     CopyConstruct      any(const any&)            g.j: source (g.nc = 1: passed as a non-const lvalue)
      MoveConstruct      any(any&&)
      CopyAssign         operator=(const any&)      g.j = k allowed
      MoveAssign         operator=(any&&)           g.j = k allowed
@@ -70,14 +92,17 @@ NullRes == [NoRes EXCEPT !.null = TRUE]
      Destroy, DestroyIf ~any()  (DestroyIf: only if constructed; used by scripts after a constructor that may have thrown)
      HasValue, Empty, Type   observers
      Cast               any_cast<...>              g.t: decayed target type, g.form: see below
-     SetVia             any_cast<T>(&a)->set(v)    the client changes the contained object (independence of copies)
+     SetVia             *any_cast<T>(&a) = v       the client changes the contained object (independence of copies)
    g.fuse = n > 0: the n-th throwing-capable payload constructor of the call throws. *)
 
 ValueForms == {"lv", "clv", "rv", "crv"}      \* T&, const T&, T&&, const T&&
+FormsOf(t) == ValueForms \cup (IF t \in DecayTypes THEN {"decay"} ELSE {})    \* "decay": an array / a function itself
 PtrForms  == {"p_m", "p_mc", "p_c", "p_cc"}    \* any_cast<U>(any*), <const U>(any*), <U>(const any*), <const U>(const any*)
 NullForms == {"p_n", "p_nc"}                   \* any_cast<U>((any*)nullptr), ((const any*)nullptr)
-ValForms  == {"v_m", "v_mc", "v_c", "v_cc", "v_r"}   \* any_cast<U>(any&), <const U>(any&), <U>(const any&), <const U>(const any&), <U>(any&&)
-RefForms  == {"r_m", "r_mc", "r_c", "r_r"}     \* any_cast<U&>(any&), <const U&>(any&), <const U&>(const any&), <const U&>(any&&)
+RvalForms == {"v_r", "v_rc"}                   \* any_cast<U>(any&&), <const U>(any&&)
+ValForms  == {"v_m", "v_mc", "v_c", "v_cc"} \cup RvalForms   \* any_cast<U>(any&), <const U>(any&), <U>(const any&), <const U>(const any&)
+RefForms  == {"r_m", "r_mc", "r_c", "r_r",     \* any_cast<U&>(any&), <const U&>(any&), <const U&>(const any&), <const U&>(any&&)
+              "lr_r", "x_r", "cx_r"}           \* any_cast<U&>(any&&), <U&&>(any&&), <const U&&>(any&&)  (where the library accepts them)
 CastForms == PtrForms \cup NullForms \cup ValForms \cup RefForms
 NoexceptOps == {"DefaultConstruct", "MoveConstruct", "MoveAssign", "Swap", "StdSwap", "AReset", "AClear", "Destroy",
                 "DestroyIf", "HasValue", "Empty", "Type", "SetVia"}
@@ -91,147 +116,194 @@ Pre(op, k, g) ==
          [] op \in {"CopyAssign", "MoveAssign", "Swap", "StdSwap"} -> a[k] # RAW /\ g.j \in Anys /\ a[g.j] # RAW
          [] op \in {"AssignValue", "AReset", "AClear", "Destroy", "HasValue", "Empty", "Type", "SetVia"} -> a[k] # RAW
          [] op = "DestroyIf" -> TRUE
-         [] op = "Cast" -> g.form \in CastForms /\ (a[k] # RAW \/ g.form \in NullForms)
+         [] op = "Cast" -> /\ g.form \in CastForms /\ (a[k] # RAW \/ g.form \in NullForms)
+                           /\ (g.t = "Arr" => g.form \in PtrForms \cup NullForms)     \* a function cannot return an array
          [] OTHER -> FALSE
 
 ----------------------------------------------------------------------------
-(* Well-formedness after every call: the live payload objects are exactly those contained in
-   the any objects, and no two any objects contain the same object. *)
+(* A "world" is a record [a, u, lt] (plus spc for the world after a call). *)
+World(x, U, L) == [a |-> x, u |-> U, lt |-> L]
+
+(* any k of world W contains an object that is alive *)
+Contains(W, k) == W.a[k] = UNT \/ (Has(W.a[k]) /\ W.a[k] \in Live(W.lt))
+(* its type and value (only meaningful under Contains) *)
+Ty(W, k) == IF W.a[k] = UNT THEN W.u[k].t ELSE W.lt.typ[W.a[k]]
+Va(W, k) == IF W.a[k] = UNT THEN W.u[k].v ELSE W.lt.val[W.a[k]]
+
+(* Well-formedness after every call: the live instrumented payload objects are exactly those contained in the any
+   objects, no two any objects contain the same object, and every control block has exactly one owner per any
+   that contains it (an owner too many: a payload that was never destroyed; one too few: destroyed twice). *)
 WFwith(x, L) ==
     /\ Live(L) = {x[k] : k \in {i \in Anys : Has(x[i])}}
     /\ \A i, j \in Anys : (i # j /\ Has(x[i])) => x[i] # x[j]
+Owners(x, U, v) == Cardinality({k \in Anys : x[k] = UNT /\ U[k].t \in CountedTypes /\ U[k].v = v})
+WFU(x, U, spc) ==
+    /\ \A k \in Anys : IF x[k] = UNT THEN U[k].t \in UntrackedTypes ELSE U[k] = NoU
+    /\ \A i, j \in Anys : (i # j /\ x[i] = UNT /\ x[j] = UNT) => U[i].loc # U[j].loc
+    /\ \A v \in (DOMAIN spc) \cup {U[k].v : k \in {i \in Anys : x[i] = UNT /\ U[i].t \in CountedTypes /\ U[i].v # MOVED}} :
+          Owners(x, U, v) = (IF v \in DOMAIN spc THEN spc[v] ELSE 0)
 
-(* x in lifetime L and y in lifetime M are "the same value": both empty, or objects of one type with equal values *)
-ValEq(L, x, M, y) ==
-    \/ x = EMPTY /\ y = EMPTY
-    \/ /\ Has(x) /\ Has(y) /\ y \in Live(M)
-       /\ M.typ[y] = L.typ[x] /\ M.val[y] = L.val[x]
-(* untouched: still the same object with the same value *)
-Same(L, x, M, y) ==
-    /\ x = y
-    /\ Has(x) => (y \in Live(M) /\ M.val[y] = L.val[x])
-Holds(M, y, t, v) == Has(y) /\ y \in Live(M) /\ M.typ[y] = t /\ M.val[y] = v
+(* any i of world W and any j of world W2 hold "the same value": both empty, or objects of one type with equal values *)
+ValEq(W, i, W2, j) ==
+    \/ W.a[i] = EMPTY /\ W2.a[j] = EMPTY
+    \/ /\ W.a[i] >= UNT /\ Contains(W2, j)
+       /\ Ty(W2, j) = Ty(W, i) /\ Va(W2, j) = Va(W, i)
+(* untouched: still the same object (same place) with the same value *)
+Same(W, i, W2) ==
+    /\ W2.a[i] = W.a[i]
+    /\ Has(W.a[i]) => (W.a[i] \in Live(W2.lt) /\ W2.lt.val[W.a[i]] = W.lt.val[W.a[i]])
+    /\ W.a[i] = UNT => W2.u[i] = W.u[i]
+Holds(W2, k, t, v) == Contains(W2, k) /\ Ty(W2, k) = t /\ Va(W2, k) = v
 (* a moved-from any: valid but unspecified - empty, or containing some live object *)
-Valid(M, y) == y = EMPTY \/ (Has(y) /\ y \in Live(M))
+Valid(W2, k) == W2.a[k] = EMPTY \/ Contains(W2, k)
 
-(* The post-condition of one call.  a, L: before; a2, M: after; threw: an injected constructor fault fired. *)
-Post(op, k, g, L, a2, M, res, threw) ==
-    LET Fr(T) == \A i \in Anys \ T : Same(L, a[i], M, a2[i])
+(* The post-condition of one call.  W: before; W2: after; threw: an injected constructor fault fired. *)
+Post(op, k, g, W, W2, res, threw) ==
+    LET Fr(T) == \A i \in Anys \ T : Same(W, i, W2)
         None  == res = NoRes /\ ~threw
         Fuse  == res = FuseRes /\ threw /\ g.fuse > 0
-        x     == a[k]
-    IN CASE op = "DefaultConstruct" -> None /\ a2[k] = EMPTY /\ Fr({k})
+        x     == W.a[k]
+    IN CASE op = "DefaultConstruct" -> None /\ W2.a[k] = EMPTY /\ Fr({k})
          [] op = "Construct" ->
-              /\ g.form \in ValueForms /\ g.t \in Types
-              /\ \/ None /\ Holds(M, a2[k], g.t, g.v) /\ Fr({k})
-                 \/ Fuse /\ a2[k] = RAW /\ Fr({k})                        \* no object, nothing else touched
+              /\ g.t \in Types /\ g.form \in FormsOf(g.t)
+              /\ \/ None /\ Holds(W2, k, g.t, g.v) /\ Fr({k})
+                 \/ Fuse /\ W2.a[k] = RAW /\ Fr({k})                      \* no object, nothing else touched
          [] op = "CopyConstruct" ->
-              \/ None /\ ValEq(L, a[g.j], M, a2[k]) /\ Fr({k})            \* equal to the source, source untouched
-              \/ Fuse /\ a2[k] = RAW /\ Fr({k})
+              \/ None /\ ValEq(W, g.j, W2, k) /\ Fr({k})                  \* equal to the source, source untouched
+              \/ Fuse /\ W2.a[k] = RAW /\ Fr({k})
          [] op = "MoveConstruct" ->
-              /\ None /\ ValEq(L, a[g.j], M, a2[k]) /\ Valid(M, a2[g.j]) /\ Fr({k, g.j})
+              /\ None /\ ValEq(W, g.j, W2, k) /\ Valid(W2, g.j) /\ Fr({k, g.j})
          [] op = "CopyAssign" ->
-              \/ None /\ ValEq(L, a[g.j], M, a2[k]) /\ Fr({k})
-              \/ Fuse /\ ValEq(L, x, M, a2[k]) /\ Fr({k})                 \* strong guarantee: the target keeps its value
+              \/ None /\ ValEq(W, g.j, W2, k) /\ Fr({k})
+              \/ Fuse /\ ValEq(W, k, W2, k) /\ Fr({k})                    \* strong guarantee: the target keeps its value
          [] op = "MoveAssign" ->
               /\ None
-              /\ IF g.j = k THEN Valid(M, a2[k]) /\ Fr({k})               \* self-move: valid but unspecified
-                 ELSE ValEq(L, a[g.j], M, a2[k]) /\ Valid(M, a2[g.j]) /\ Fr({k, g.j})
+              /\ IF g.j = k THEN Valid(W2, k) /\ Fr({k})                  \* self-move: valid but unspecified
+                 ELSE ValEq(W, g.j, W2, k) /\ Valid(W2, g.j) /\ Fr({k, g.j})
          [] op = "AssignValue" ->
-              /\ g.form \in ValueForms /\ g.t \in Types
-              /\ \/ None /\ Holds(M, a2[k], g.t, g.v) /\ Fr({k})
-                 \/ Fuse /\ ValEq(L, x, M, a2[k]) /\ Fr({k})              \* strong guarantee
+              /\ g.t \in Types /\ g.form \in FormsOf(g.t)
+              /\ \/ None /\ Holds(W2, k, g.t, g.v) /\ Fr({k})
+                 \/ Fuse /\ ValEq(W, k, W2, k) /\ Fr({k})                 \* strong guarantee
          [] op \in {"Swap", "StdSwap"} ->
-              /\ None /\ ValEq(L, a[g.j], M, a2[k]) /\ ValEq(L, x, M, a2[g.j]) /\ Fr({k, g.j})
-         [] op \in {"AReset", "AClear"} -> None /\ a2[k] = EMPTY /\ Fr({k})
-         [] op = "Destroy" -> None /\ a2[k] = RAW /\ Fr({k})
-         [] op = "DestroyIf" -> None /\ a2[k] = RAW /\ Fr({k})
-         [] op = "HasValue" -> ~threw /\ res = [NoRes EXCEPT !.v = IF Has(x) THEN 1 ELSE 0] /\ Fr({})
-         [] op = "Empty"    -> ~threw /\ res = [NoRes EXCEPT !.v = IF Has(x) THEN 0 ELSE 1] /\ Fr({})
-         [] op = "Type"     -> ~threw /\ res = [NoRes EXCEPT !.ty = IF Has(x) THEN L.typ[x] ELSE "void"] /\ Fr({})
+              /\ None /\ ValEq(W, g.j, W2, k) /\ ValEq(W, k, W2, g.j) /\ Fr({k, g.j})
+         [] op \in {"AReset", "AClear"} -> None /\ W2.a[k] = EMPTY /\ Fr({k})
+         [] op = "Destroy" -> None /\ W2.a[k] = RAW /\ Fr({k})
+         [] op = "DestroyIf" -> None /\ W2.a[k] = RAW /\ Fr({k})
+         [] op = "HasValue" -> ~threw /\ res = [NoRes EXCEPT !.v = IF x >= UNT THEN 1 ELSE 0] /\ Fr({})
+         [] op = "Empty"    -> ~threw /\ res = [NoRes EXCEPT !.v = IF x >= UNT THEN 0 ELSE 1] /\ Fr({})
+         [] op = "Type"     -> ~threw /\ res = [NoRes EXCEPT !.ty = IF x >= UNT THEN Ty(W, k) ELSE "void"] /\ Fr({})
          [] op = "Cast" ->
-              LET hit   == g.form \notin NullForms /\ Has(x) /\ L.typ[x] = g.t      \* exactly the stored decayed type
-                  Found == [NoRes EXCEPT !.id = x, !.v = L.val[x]]                   \* ... and the stored object itself
+              LET hit   == g.form \notin NullForms /\ x >= UNT /\ Ty(W, k) = g.t    \* exactly the stored decayed type
+                  Found == IF x = UNT THEN [NoRes EXCEPT !.loc = W.u[k].loc, !.v = W.u[k].v]   \* ... and the stored object itself
+                                      ELSE [NoRes EXCEPT !.id = x, !.v = W.lt.val[x]]
               IN \/ /\ g.form \in PtrForms \cup NullForms
                     /\ ~threw /\ Fr({}) /\ res = IF hit THEN Found ELSE NullRes
                  \/ /\ g.form \in RefForms
-                    /\ ~threw /\ Fr({}) /\ res = IF hit THEN Found ELSE BadCast
+                    /\ ~threw /\ Fr({}) /\ res = IF hit THEN Found ELSE CastFails
                  \/ /\ g.form \in ValForms /\ ~hit
-                    /\ ~threw /\ Fr({}) /\ res = BadCast
-                 \/ /\ g.form \in ValForms /\ hit
+                    /\ ~threw /\ Fr({}) /\ res = CastFails
+                 \/ /\ g.form \in ValForms /\ hit /\ Has(x)
                     /\ \/ /\ ~threw                                                  \* a new object equal to the stored one
-                          /\ res = [NoRes EXCEPT !.id = res.id, !.v = L.val[x]] /\ res.id > L.hi
-                          /\ IF g.form = "v_r"                                       \* from an rvalue any: copy (N4562) or move (C++17)
-                               THEN /\ Fr({k}) /\ a2[k] = x /\ x \in Live(M) /\ M.val[x] \in {L.val[x], MOVED}
+                          /\ res = [NoRes EXCEPT !.id = res.id, !.v = W.lt.val[x]] /\ res.id > W.lt.hi
+                          /\ IF g.form \in RvalForms                                 \* from an rvalue any: copy (N4562) or move (C++17)
+                               THEN /\ Fr({k}) /\ W2.a[k] = x /\ x \in Live(W2.lt) /\ W2.lt.val[x] \in {W.lt.val[x], MOVED}
                                ELSE Fr({})
                        \/ Fuse /\ Fr({})
+                 \/ /\ g.form \in ValForms /\ hit /\ x = UNT
+                    /\ ~threw /\ res = [NoRes EXCEPT !.v = W.u[k].v]                 \* an equal value
+                    /\ IF g.form \in RvalForms
+                         THEN /\ Fr({k}) /\ W2.a[k] = UNT
+                              /\ \E v \in {W.u[k].v, MOVED} : W2.u[k] = [W.u[k] EXCEPT !.v = v]
+                         ELSE Fr({})
          [] op = "SetVia" ->
-              IF Has(x) /\ L.typ[x] = g.t
-                THEN /\ ~threw /\ res = [NoRes EXCEPT !.id = x, !.v = g.v]
-                     /\ a2[k] = x /\ x \in Live(M) /\ M.val[x] = g.v /\ Fr({k})
+              IF x >= UNT /\ Ty(W, k) = g.t
+                THEN IF x = UNT
+                       THEN /\ ~threw /\ res = [NoRes EXCEPT !.loc = W.u[k].loc, !.v = g.v]
+                            /\ W2.a[k] = UNT /\ W2.u[k] = [W.u[k] EXCEPT !.v = g.v] /\ Fr({k})
+                       ELSE /\ ~threw /\ res = [NoRes EXCEPT !.id = x, !.v = g.v]
+                            /\ W2.a[k] = x /\ x \in Live(W2.lt) /\ W2.lt.val[x] = g.v /\ Fr({k})
                 ELSE ~threw /\ res = NullRes /\ Fr({})
          [] OTHER -> FALSE
 
-(* Is the call (op, k, g) with element events evs, result res and contents a2 afterwards allowed now? *)
-CallOK(op, k, g, evs, res, a2) ==
+(* Is the call (op, k, g) with element events evs, result res and contents a2, u2 (owner counts spc) afterwards allowed now? *)
+CallOK(op, k, g, evs, res, a2, u2, spc) ==
     LET F == Fold(lt, evs, 1) IN
     /\ Pre(op, k, g)
     /\ F.ok
     /\ WFwith(a2, F.L)
-    /\ Post(op, k, g, lt, a2, F.L, res, Threw(evs))
+    /\ WFU(a2, u2, spc)
+    /\ Post(op, k, g, World(a, u, lt), World(a2, u2, F.L), res, Threw(evs))
 
-Step(op, k, g, evs, res, a2) ==
-    /\ CallOK(op, k, g, evs, res, a2)
+Step(op, k, g, evs, res, a2, u2, spc) ==
+    /\ CallOK(op, k, g, evs, res, a2, u2, spc)
     /\ a' = a2
+    /\ u' = u2
     /\ lt' = Fold(lt, evs, 1).L
+    /\ env' = env
     /\ last' = [op |-> op, k |-> k, a |-> g, ev |-> evs, res |-> res]
-    /\ pre' = [a |-> a, lt |-> lt]
+    /\ pre' = [a |-> a, u |-> u, lt |-> lt]
 
 InitWith(h) ==
     /\ a = [k \in Anys |-> RAW]
+    /\ u = [k \in Anys |-> NoU]
     /\ lt = NoObjects(h)
+    /\ env = [noexc |-> FALSE]
     /\ last = [op |-> "Init", k |-> 0, a |-> [fuse |-> 0], ev |-> <<>>, res |-> NoRes]
-    /\ pre = [a |-> [k \in Anys |-> RAW], lt |-> NoObjects(h)]
+    /\ pre = [a |-> [k \in Anys |-> RAW], u |-> [k \in Anys |-> NoU], lt |-> NoObjects(h)]
 Init == InitWith(0)
 
 ----------------------------------------------------------------------------
-(* Payload ids carry no meaning beyond identity.  Canon renames the object contained in any k
+(* Payload ids and locations carry no meaning beyond identity.  Canon renames the object contained in any k
    to k (and forgets the history of ids), so that finite-state exploration is possible: in a
    canonical state ids are <= NA and every id used by the next call is > NA.               *)
 CanonA(x)     == [k \in Anys |-> IF Has(x[k]) THEN k ELSE x[k]]
+CanonU(x, U)  == [k \in Anys |-> IF x[k] = UNT THEN [U[k] EXCEPT !.loc = k] ELSE NoU]
 CanonL(x, L)  == LET hs == {k \in Anys : Has(x[k])} IN
                  [typ |-> [k \in hs |-> L.typ[x[k]]], val |-> [k \in hs |-> L.val[x[k]]], hi |-> NA]
 IsCanon       == /\ lt.hi = NA
                  /\ \A k \in Anys : Has(a[k]) => a[k] = k
+                 /\ \A k \in Anys : a[k] = UNT => u[k].loc = k
+(* the owner counts implied by a state *)
+SpcOf(x, U)   == LET vs == {U[k].v : k \in {i \in Anys : x[i] = UNT /\ U[i].t \in CountedTypes /\ U[i].v # MOVED}}
+                 IN [v \in vs |-> Owners(x, U, v)]
 
 ----------------------------------------------------------------------------
 (* Invariants and theorems of the specification itself (they guard the oracle). *)
 TypeOK ==
-    /\ \A k \in Anys : a[k] \in {RAW, EMPTY} \/ Has(a[k])
+    /\ \A k \in Anys : a[k] \in {RAW, EMPTY, UNT} \/ Has(a[k])
     /\ DOMAIN lt.typ = DOMAIN lt.val
-    /\ \A i \in Live(lt) : lt.typ[i] \in Types /\ i <= lt.hi
+    /\ \A i \in Live(lt) : lt.typ[i] \in Types \ UntrackedTypes /\ i <= lt.hi
+    /\ \A k \in Anys : IF a[k] = UNT THEN u[k].t \in Types \cap UntrackedTypes ELSE u[k] = NoU
 
 (* every contained object is alive, nothing else is: no leak, no dangling any *)
 NoLeakNoDangling == Live(lt) = {a[k] : k \in {i \in Anys : Has(a[i])}}
 (* copies are independent objects *)
-Independent == \A i, j \in Anys : (i # j /\ Has(a[i])) => a[i] # a[j]
+Independent == /\ \A i, j \in Anys : (i # j /\ Has(a[i])) => a[i] # a[j]
+               /\ \A i, j \in Anys : (i # j /\ a[i] = UNT /\ a[j] = UNT) => u[i].loc # u[j].loc
 
 (* value of any k seen from outside: what has_value(), type() and a successful any_cast report *)
-View(x, L, k) == IF x[k] = RAW THEN <<"raw">> ELSE IF x[k] = EMPTY THEN <<"empty">> ELSE <<L.typ[x[k]], L.val[x[k]]>>
+View(x, U, L, k) == IF x[k] = RAW THEN <<"raw">> ELSE IF x[k] = EMPTY THEN <<"empty">>
+                    ELSE IF x[k] = UNT THEN <<U[k].t, U[k].v>> ELSE <<L.typ[x[k]], L.val[x[k]]>>
+V0(k) == View(a, u, lt, k)
+V1(k) == View(a', u', lt', k)
 
-ObserversPure     == [][last'.op \in ObserverOps \cup {"Cast"} /\ ~(last'.op = "Cast" /\ last'.a.form = "v_r")
-                          => \A k \in Anys : View(a', lt', k) = View(a, lt, k)]_vars
+ObserversPure     == [][last'.op \in ObserverOps \cup {"Cast"} /\ ~(last'.op = "Cast" /\ last'.a.form \in RvalForms)
+                          => \A k \in Anys : V1(k) = V0(k)]_vars
 NoexceptNeverThrow == [][last'.op \in NoexceptOps => last'.res.exc = "none"]_vars
 (* a call that threw changed no any object's value *)
-ThrowChangesNothing == [][last'.res.exc # "none" => \A k \in Anys : View(a', lt', k) = View(a, lt, k)]_vars
+ThrowChangesNothing == [][last'.res.exc # "none" => \A k \in Anys : V1(k) = V0(k)]_vars
 (* a call touches only the objects it names *)
 OthersUntouched == [][\A k \in Anys : (k # last'.k /\ ("j" \notin DOMAIN last'.a \/ k # last'.a.j))
-                                         => View(a', lt', k) = View(a, lt, k)]_vars
+                                         => V1(k) = V0(k)]_vars
 (* after a successful copy the target shows the source's value and the source still shows it *)
 CopyCopies == [][(last'.op \in {"CopyConstruct", "CopyAssign"} /\ last'.res.exc = "none")
-                    => /\ View(a', lt', last'.k) = View(a, lt, last'.a.j)
-                       /\ View(a', lt', last'.a.j) = View(a, lt, last'.a.j)]_vars
+                    => /\ V1(last'.k) = V0(last'.a.j)
+                       /\ V1(last'.a.j) = V0(last'.a.j)]_vars
 SwapSwaps == [][last'.op \in {"Swap", "StdSwap"}
-                    => /\ View(a', lt', last'.k) = View(a, lt, last'.a.j)
-                       /\ View(a', lt', last'.a.j) = View(a, lt, last'.k)]_vars
+                    => /\ V1(last'.k) = V0(last'.a.j)
+                       /\ V1(last'.a.j) = V0(last'.k)]_vars
+(* two routes to one observable: has_value()/empty()/type() agree with what any_cast finds *)
+ObserversAgree == [][/\ last'.op = "HasValue" => (last'.res.v = 1) = (V0(last'.k)[1] \notin {"raw", "empty"})
+                     /\ last'.op = "Empty"    => (last'.res.v = 1) = (V0(last'.k)[1] = "empty")
+                     /\ last'.op = "Type"     => last'.res.ty = (IF V0(last'.k)[1] = "empty" THEN "void" ELSE V0(last'.k)[1])]_vars
 =============================================================================
